@@ -4,5 +4,6 @@
 EXTENDS Naturals, Sequences
 CONSTANTS IdPool, MaxBatch, MaxLists
 Batches == UNION {[1..n -> IdPool] : n \in 1..MaxBatch}
-Histories == UNION {[1..n -> Batches] : n \in 1..MaxLists}
+\* a history is a sequence of list calls, each answered with a batch or failing (the empty sequence stands for a failed call)
+Histories == UNION {[1..n -> Batches \cup {<<>>}] : n \in 1..MaxLists}
 =============================================================================
